@@ -37,7 +37,9 @@ Definition string_of_Z (z : Z) : string := NilZero.string_of_int (Z.to_int z).
 Definition coerce_leaf (n : string) (v : ival) : option aval :=
   match v with
   | VInt z => if String.eqb n "ID" then Some (AStr (string_of_Z z)) else Some (AInt z)
-  | VStr s => Some (AStr s) | VBool b => Some (ABool b)
+  | VStr s => (* the probe's user scalar Fragile refuses the text "bad" (a failure only the unmarshaler can report) *)
+              if String.eqb n "Fragile" && String.eqb s "bad" then None else Some (AStr s)
+  | VBool b => Some (ABool b)
   | VEnum s => Some (AStr s) | VFloat i => Some (AFloat i)
   | _ => None
   end.
